@@ -144,8 +144,43 @@ def xml_esc(s):
     return s.replace("&", "&amp;").replace("<", "&lt;").replace('"', "&quot;")
 
 
-def render_nexml(doc):
-    taxa = doc["taxa"]
+def block_labels(b):
+    out = []
+    for s in b["stmts"]:
+        for lab in s["tree"]["lf"]:
+            if lab not in out:
+                out.append(lab)
+    return out
+
+
+def otus_lists(doc, per_block):
+    """the <otus> blocks of the NeXML rendering: one for everything, or (per_block) one per TREES block holding the
+    labels that block uses (the first one also holds the labels of the matrix rows); later blocks repeat labels of
+    earlier ones, possibly as case variants"""
+    if not per_block:
+        return [list(doc["taxa"])]
+    tb = [b for b in doc["blocks"] if b["kind"] == "trees"]
+    lists = []
+    for k, b in enumerate(tb):
+        labs = block_labels(b)
+        if k == 0:
+            for cb in doc["blocks"]:
+                if cb["kind"] == "chars":
+                    for row in cb["rows"]:
+                        if row["lab"] not in labs:
+                            labs.append(row["lab"])
+        if not labs:
+            labs = [t for t in doc["taxa"] if t != "A"]
+        lists.append(labs)
+    return lists or [list(doc["taxa"])]
+
+
+def render_nexml2(doc):
+    return render_nexml(doc, per_block=True)
+
+
+def render_nexml(doc, per_block=False):
+    lists = otus_lists(doc, per_block)
     mid = [0]
 
     def meta(c, ind):
@@ -156,10 +191,13 @@ def render_nexml(doc):
          '    xmlns:dendropy="http://pypi.org/project/DendroPy/" xmlns="http://www.nexml.org/2009"',
          '    xmlns:xsi="http://www.w3.org/2001/XMLSchema-instance" xmlns:xml="http://www.w3.org/XML/1998/namespace"',
          '    xmlns:nex="http://www.nexml.org/2009" xmlns:xsd="http://www.w3.org/2001/XMLSchema#">',
-         '    <otus id="tax1">']
-    for j, lab in enumerate(taxa):
-        L += ['        <otu id="o%d" label="%s" />' % (j + 1, xml_esc(lab))]
-    L += ['    </otus>']
+         ]
+    for q, labs in enumerate(lists):
+        L += ['    <otus id="tax%d">' % (q + 1)]
+        for j, lab in enumerate(labs):
+            L += ['        <otu id="o%d_%d" label="%s" />' % (q + 1, j + 1, xml_esc(lab))]
+        L += ['    </otus>']
+    taxa = lists[0]
     nb = nc = 0
     for b in doc["blocks"]:
         if b["kind"] == "chars":
@@ -180,13 +218,15 @@ def render_nexml(doc):
                 L += ['            <char id="ch%d_%d" states="st%d" />' % (nc, k + 1, nc)]
             L += ['        </format>', '        <matrix>']
             for j, row in enumerate(b["rows"]):
-                L += ['            <row id="row%d_%d" otu="o%d"><seq>%s</seq></row>' % (nc, j + 1, taxa.index(row["lab"]) + 1, row["seq"])]
+                L += ['            <row id="row%d_%d" otu="o1_%d"><seq>%s</seq></row>' % (nc, j + 1, lists[0].index(row["lab"]) + 1, row["seq"])]
             L += ['        </matrix>', '    </characters>']
             continue
         if b["kind"] != "trees":
             continue
         nb += 1
-        L += ['    <trees id="trees%d"%s otus="tax1">' % (nb, (' label="%s"' % xml_esc(b["title"])) if b["title"] else "")]
+        q = nb if (per_block and nb <= len(lists)) else 1
+        taxa = lists[q - 1]
+        L += ['    <trees id="trees%d"%s otus="tax%d">' % (nb, (' label="%s"' % xml_esc(b["title"])) if b["title"] else "", q)]
         for i, s in enumerate(b["stmts"]):
             t = s["tree"]
             p, lf, il, ln = t["p"], t["lf"], t["il"], t["ln"]
@@ -207,7 +247,7 @@ def render_nexml(doc):
                     if il[x - 1]:
                         attrs += ' label="%s"' % xml_esc(il[x - 1])
                 else:
-                    attrs += ' otu="o%d"' % (taxa.index(lf[li[x]]) + 1)
+                    attrs += ' otu="o%d_%d"' % (q, taxa.index(lf[li[x]]) + 1)
                 if x == 1 and s["rt"] == "R":
                     attrs += ' root="true"'
                 if x in ncom:
@@ -225,7 +265,8 @@ def render_nexml(doc):
     return "\n".join(L)
 
 
-RENDER = {"nexus": render_nexus, "newick": render_newick, "nexml": render_nexml}
+RENDER = {"nexus": render_nexus, "newick": render_newick, "nexml": render_nexml, "nexml2": render_nexml2}
+SCHEMA = {"nexus": "nexus", "newick": "newick", "nexml": "nexml", "nexml2": "nexml"}
 
 
 def formats_of(doc):
@@ -235,9 +276,15 @@ def formats_of(doc):
     out = ["nexus"]
     if len(tb) == 1 and not tb[0]["translate"] and tb[0]["stmts"]:   # (CHARACTERS blocks have no Newick form and are left out)
         out.append("newick")
-    low = [t.lower() for t in doc["taxa"]]
-    if not any(b["translate"] for b in tb) and len(set(low)) == len(low):
-        out.append("nexml")
+    def distinct(labs):
+        low = [t.lower() for t in labs]
+        return len(set(low)) == len(low)
+    if not any(b["translate"] for b in tb):
+        if distinct(doc["taxa"]):
+            out.append("nexml")
+        # "nexml2": NeXML with one <otus> block per TREES block (labels shared between the blocks, possibly as case variants)
+        if len(tb) >= 2 and all(distinct(labs) for labs in otus_lists(doc, True)):
+            out.append("nexml2")
     return out
 
 
@@ -362,7 +409,7 @@ def random_doc(rng):
                 cin.append({"at": x, "c": comment()})
         w = [0, 0]
         if rng.random() < 0.4:
-            w = rng.choice([[1, 2], [1, 4], [2, 1], [3, 4], [1, 1]])
+            w = rng.choice([[1, 2], [1, 4], [2, 1], [3, 4], [1, 1], [0, 1], [0, 3]])
         return {"name": "t%dx%d" % (b, i), "sym": "number" if rng.random() < 0.3 else "label", "rt": rng.choice(["", "", "R", "U"]), "w": w,
                 "cpre": comments(0.25), "cpost": comments(0.3), "cin": cin, "caft": comments(0.25),
                 "tree": {"p": p, "lf": labs, "il": il, "ln": ln}}
